@@ -34,7 +34,8 @@ def make_setup(npts, degrees, uniform_flag=True, rrange=None, vrange=None, perio
     knots = [make_knots(b, int(d), p) for b, d, p in zip(breaks, degrees, period)]
     bs = [BSplines(k, int(d), p, uniform_flag) for k, d, p in zip(knots, degrees, period)]
     eta = [b.greville for b in bs]
-    c.npts = list(npts)
+    if nd == 4:
+        c.npts = list(npts)
     return {'eta': eta, 'bsplines': bs, 'constants': c, 'breaks': breaks, 'knots': knots, 'npts': list(npts),
             'degrees': list(degrees)}
 
